@@ -26,11 +26,21 @@ ShapesBase == <<
   <<97, 194, 160>> \o xcom, xcom \o <<194, 160>>, <<97, 194, 161>> \o xcom, <<97, 194, 173>> \o xcom, <<97, 223, 191>> \o xcom,
   <<97, 224, 160, 128>> \o xcom, <<239, 187, 191>> \o xcom, <<97, 239, 191, 189>> \o xcom, <<97, 226, 128, 139>> \o xcom,
   <<97, 240, 144, 128, 128>> \o xcom, <<97, 244, 143, 191, 191>> \o xcom, <<97, 194, 128>> \o xcom, <<97, 194, 159>> \o xcom,
-  <<97, 224, 184, 151, 224, 185, 132>> \o xcom, <<97, 237, 159, 191, 238, 128, 128>> \o xcom >>
+  <<97, 224, 184, 151, 224, 185, 132>> \o xcom, <<97, 237, 159, 191, 238, 128, 128>> \o xcom,
+  \* '%' is an ordinary atom character: the echo is data, never a format
+  <<53, 48, 37, 111, 102, 102>> \o xcom, <<97, 37, 115>> \o xcom, <<97, 37, 100, 37, 110>> \o xcom, <<97, 37, 37>> \o xcom,
+  <<97, 37>> \o xcom, xcom \o <<37>>, <<37, 115, 37, 115, 37, 115, 37, 115>>, <<97, 37, 49, 48, 48, 48, 48, 100>> \o xcom,
+  <<97, 92, 110>> \o xcom >>
 RepLong(n) == [i \in 1..(2 * n) |-> IF i % 2 = 1 THEN 195 ELSE 169] \o xcom
-ShapesLong == << Long(2047), Long(2048), Long(2049), Long(8192), Rep(1, 600) \o xcom, Rep(255, 3000), Long(2046) \o <<255>>,
+\* Long(Huge): with the 256 KiB stack the tool is run under, a line no per-line stack buffer can hold
+Huge == 100000
+ShapesLong == << Long(2047), Long(2048), Long(2049), Long(8192), Rep(1, 600) \o xcom, Long(Huge), Rep(255, 3000), Long(2046) \o <<255>>,
                  RepLong(1500) >>
-Shapes == IF Tier >= 2 THEN ShapesBase \o ShapesLong ELSE ShapesBase \o SubSeq(ShapesLong, 1, 5)
+Shapes == IF Tier >= 2 THEN ShapesBase \o ShapesLong ELSE ShapesBase \o SubSeq(ShapesLong, 1, 6)
+NSx == Len(Shapes)
+\* shapes of the files given together on one command line (lengths and kinds differ: scratch state carried from file to file)
+MultiShapes == {i \in 1..NSx : Shapes[i] \in {<<>>, xcom, <<97, AT, 120>>, <<HASH, 99>>, <<195, 169>> \o xcom, <<97, 1>> \o xcom,
+                                               Long(2049), <<97, 255>> \o xcom, <<SP, SP>>}}
 NS == Len(Shapes)
 Term(t) == CASE t = 1 -> <<LF>> [] t = 2 -> <<CR, LF>> [] t = 3 -> <<>>
 
@@ -46,6 +56,11 @@ Init == f = <<>> /\ k = 0
 Next == \/ k = 0 /\ \E i \in 1..NS : f' = <<i>> /\ k' = -1               \* shape definition states
         \/ k >= 0 /\ k < MaxLines /\ (IF k = 0 THEN TRUE ELSE f[Len(f)][2] # 3)
            /\ \E i \in 1..NS : \E t \in 1..3 : f' = Append(f, <<i, t>>) /\ k' = k + 1
+        \* command lines of two and three one-line files
+        \/ k = 0 /\ \E i \in MultiShapes, j \in MultiShapes : \E t, u \in {1, 3} : f' = << <<i, t>>, <<j, u>> >> /\ k' = -2
+        \/ k = -2 /\ Len(f) = 2 /\ f[1][2] = 1 /\ f[2][2] = 1 /\ \E i \in MultiShapes : f' = Append(f, <<i, 1>>) /\ k' = -2
+\* [24, nfiles, processing order.., then per file: nlines, (shape, term)..]
+InvVec == <<24, Len(f)>> \o ProcessingOrder(Len(f)) \o Concat([j \in 1..Len(f) |-> <<1, f[j][1], f[j][2]>>])
 FileVec == <<20, Len(f)>> \o Concat(f)
 \* the line structure the spec assigns to the concatenated bytes is the one getline produces
 FileBytes == Concat([j \in 1..Len(f) |-> Shapes[f[j][1]] \o Term(f[j][2])])
@@ -55,5 +70,6 @@ Reparse == k > 0 /\ Len(FileBytes) < 200 =>
              Len(ls) = Len(f) - (IF f[Len(f)][2] = 3 /\ Shapes[f[Len(f)][1]] = <<>> THEN 1 ELSE 0)
 Inv == CASE k = -1 -> PrintT(ToJson(ShapeVec(f[1])))
          [] k > 0 -> Reparse /\ PrintT(ToJson(FileVec))
+         [] k = -2 -> PrintT(ToJson(InvVec))
          [] OTHER -> TRUE
 =============================================================================
